@@ -170,9 +170,57 @@ def _run_enumeration(sc, tier, seed, shard, nshards, matchers):
     return stats, list(failures.values()), harness
 
 
+def _calltrace_start():
+    """GVP_CALLTRACE=<file>: record which functions of the code under test each worker enters (tools/api_coverage.py reads it).
+    A diagnostic of the harness only; nothing in /repo is touched and no check depends on it."""
+    if not os.environ.get("GVP_CALLTRACE"):
+        return None
+    from . import repo
+    seen = set()
+    root = os.path.realpath(repo.REPO) + os.sep
+    if os.environ.get("GVP_CALLTRACE_LINES") and hasattr(sys, "monitoring"):
+        # line coverage through sys.monitoring (3.12+): every location reports once and is then switched off, so the cost is small
+        mon = sys.monitoring
+        tool = mon.COVERAGE_ID
+        try:
+            mon.use_tool_id(tool, "gvp")
+        except ValueError:
+            pass
+
+        def on_line(code, line):
+            fn = code.co_filename
+            if fn.startswith(root):
+                seen.add("%s:%s:%d" % (fn[len(root):], "#line", line))
+            return mon.DISABLE
+        mon.register_callback(tool, mon.events.LINE, on_line)
+        mon.set_events(tool, mon.events.LINE)
+        return seen
+
+    def prof(frame, event, arg):
+        if event == "call":
+            co = frame.f_code
+            fn = co.co_filename
+            if fn.startswith(root):
+                seen.add("%s:%s:%d" % (fn[len(root):], co.co_name, co.co_firstlineno))
+    sys.setprofile(prof)
+    return seen
+
+
 def _worker(task):
+    res = _worker1(task)
+    if _TRACE[0] is not None:
+        sys.setprofile(None)
+        res["called"] = sorted(_TRACE[0])
+    return res
+
+
+_TRACE = [None]
+
+
+def _worker1(task):
     prop, name, tier, n, seed, shard, nshards, active = task
     t0 = time.time()
+    _TRACE[0] = _calltrace_start()
     try:
         module = _load(prop)
         sc = _subcheck(module, name)
@@ -376,6 +424,12 @@ def run(prop, tier, seed):
     else:
         with ctx.Pool(nproc, maxtasksperchild=1) as pool:
             results = pool.map(_worker, tasks, chunksize=1)
+    if os.environ.get("GVP_CALLTRACE"):
+        called = set()
+        for r in results:
+            called.update(r.get("called", ()))
+        with open(os.environ["GVP_CALLTRACE"], "a") as fh:
+            fh.write(json.dumps({"property": prop, "called": sorted(called)}) + "\n")
 
     per_sub = {}
     harness_errors = []
